@@ -22,12 +22,29 @@ func (pt *pathTracker) stillOnUnfollowedRemotePath(newPath datamodel.Path) bool 
 		return false
 	}
 	// are we still on it?
-	if newPath.Len() <= pt.lastUnfollowedRemotePath.Len() {
+	if newPath.Len() <= pt.lastUnfollowedRemotePath.Len() || !hasPathPrefix(newPath, pt.lastUnfollowedRemotePath) {
 		// if not, reset to no known missing remote path
 		pt.lastUnfollowedRemotePath = datamodel.NewPath(nil)
 		return false
 	}
 	// otherwise we're on a missing path
+	return true
+}
+
+// hasPathPrefix reports whether every segment of prefix matches the leading
+// segments of path, i.e. path lies underneath prefix (a deeper path in a
+// sibling subtree is not "still on" the unfollowed path)
+func hasPathPrefix(path datamodel.Path, prefix datamodel.Path) bool {
+	segments := path.Segments()
+	prefixSegments := prefix.Segments()
+	if len(prefixSegments) > len(segments) {
+		return false
+	}
+	for i, seg := range prefixSegments {
+		if !seg.Equals(segments[i]) {
+			return false
+		}
+	}
 	return true
 }
 
